@@ -199,6 +199,25 @@ fn run<X: El, N: ArrayLength>(sc: &str, f: usize, b: usize, skip: usize) {
         "iter.next" => { let mut it = position::<X, N>(f, b); let _ = it.next(); }
         "iter.next_back" => { let mut it = position::<X, N>(f, b); let _ = it.next_back(); }
         "iter.fold" => { let it = position::<X, N>(f, b); let _ = it.fold(0usize, |acc, x| { tick(); acc + x.idv() }); }
+        // provided Iterator / DoubleEndedIterator methods the crate may override (iter.overrides): a matching and a non-matching predicate
+        s if s.starts_with("iter.ov.") => {
+            let mut it = position::<X, N>(f, b);
+            let target = if s.ends_with(".none") { usize::MAX } else { n.saturating_sub(1 + b) };
+            let r = catch_unwind(AssertUnwindSafe(|| match &s["iter.ov.".len()..] {
+                "find" | "find.none" => drop(it.find(|x| { tick(); x.idv() == target })),
+                "rfind" | "rfind.none" => drop(it.rfind(|x| { tick(); x.idv() == f })),
+                "position" | "position.none" => drop(it.position(|x| { tick(); x.idv() == target })),
+                "any" | "any.none" => drop(it.any(|x| { tick(); x.idv() == target })),
+                "all" => drop(it.all(|x| { tick(); x.idv() != target })),
+                "for_each" => (&mut it).for_each(|x| { tick(); drop(x) }),
+                "try_fold" => drop(it.try_fold(0usize, |a, x| { tick(); if x.idv() == target { None } else { Some(a + 1) } })),
+                "find_map" => drop(it.find_map(|x| { tick(); if x.idv() == target { Some(x) } else { None } })),
+                "skip_while" => drop((&mut it).skip_while(|x| { tick(); x.idv() != target }).next()),
+                _ => {}
+            }));
+            drop(it);
+            if let Err(e) = r { std::panic::resume_unwind(e) }
+        }
         "iter.rfold" => { let it = position::<X, N>(f, b); let _ = it.rfold(0usize, |acc, x| { tick(); acc + x.idv() }); }
         "iter.clone" => { let it = position::<X, N>(f, b); let r = catch_unwind(AssertUnwindSafe(|| it.clone())); drop(it); match r { Ok(c) => drop(c), Err(e) => std::panic::resume_unwind(e) } }
         "generate" => { let a: GenericArray<X, N> = GenericArray::generate(|i| { tick(); X::new(i) }); drop(a); }
@@ -899,6 +918,7 @@ fn main() {
         "map" => vec!["map".into(), "map.ref".into()],
         "fold" => vec!["fold".into(), "fold.ref".into(), "fold.acc".into()],
         "iter.fold" => vec!["iter.fold".into(), "iter.fold.acc".into()],
+        "iter.overrides" => ["find", "find.none", "rfind", "rfind.none", "position", "position.none", "any", "any.none", "all", "for_each", "try_fold", "find_map", "skip_while"].iter().map(|s| format!("iter.ov.{s}")).collect(),
         "box.map" => vec!["box.map".into(), "box.map.plain".into()],
         "try_boxed_from_iter" => vec!["try_boxed_from_iter".into(), "try_boxed_from_iter.long".into(), "try_boxed_from_iter.short".into()],
         "try_from_iter" => vec!["try_from_iter".into(), "try_from_iter.long".into(), "try_from_iter.short".into(), "try_from_iter.exact".into()],
